@@ -333,6 +333,21 @@ def monitor_runs(ctx: Ctx, n):
         G.set_chain(res, "A", 1)
         c = G.centroid(res)
         waters = [G.water(rng, "A", 900 + i, c, 9.0) for i in range(rng.randint(0, 6))]
+        if ci % 3 == 0:
+            # a crowd of waters packed against one long side chain: the debumping scan of a torsion then often goes
+            # the full circle without removing the clash and falls back to the best angle it saw
+            from props.c04 import bump_water
+
+            longs = [i for i, rr in enumerate(res) if rr[0].resn in ("LEU", "LYS", "ARG", "MET", "GLN", "GLU", "ILE", "PHE", "TYR", "ASN")]
+            if longs:
+                ti = rng.choice(longs)
+                packed = []
+                for k in range(rng.choice([6, 9])):
+                    w = bump_water(rng, res + [[a for ww in packed for a in ww]] if packed else res, ti, 950 + k)
+                    if w:
+                        packed.append(w)
+                waters += packed
+                ctx.count("monitored-runs", "with a crowded side chain")
         if rng.random() < 0.3:
             from props.c01 import STATE_NAMES
 
